@@ -166,6 +166,12 @@ pub open spec fn written_for(text: Seq<char>, content: Seq<u8>) -> bool {
     encode_utf8(text) == content
     || exists|t: Seq<char>| #[trigger] (t + escaped_marker()) == text && opt_eq(decode(t), Some(content))
 }
+/// the same, with the case named: printable content is written as itself (its lossy text, whose UTF-8 bytes are the content);
+/// anything else as an escaped expression that decodes to the content, followed by the marker
+pub open spec fn exp_form(text: Seq<char>, content: Seq<u8>, unprintable: bool) -> bool {
+    (!unprintable ==> text == lossy(content) && encode_utf8(text) == content)
+    && (unprintable ==> exists|t: Seq<char>| #[trigger] (t + escaped_marker()) == text && (no_lf(content) ==> opt_eq(decode(t), Some(content))))
+}
 pub proof fn lemma_plain_is_line(bs: Seq<u8>)
     requires forall|k: int| 0 <= k < bs.len() ==> bs[k] < 0x80,
     ensures encode_utf8(ascii_chars(bs)) == bs,
@@ -378,6 +384,17 @@ proof fn lemma_lf_chars(cs: Seq<char>)
         assert forall|k: int| 0 <= k < cs.len() implies cs[k] != '\n' by { if k < init.len() { assert(cs[k] == init[k]); } }
     }
 }
+/// has_unprintable_unicode: not UTF-8, or some char is in a C* category
+pub open spec fn unp_unicode(bs: Seq<u8>) -> bool { !valid_utf8(bs) || exists|cs: Seq<char>| #[trigger] encode_utf8(cs) == bs && any_other(cs) }
+/// ... and since UTF-8 encoding is injective, any decoding decides it
+pub proof fn lemma_unp_unicode(bs: Seq<u8>)
+    ensures forall|cs: Seq<char>| #[trigger] encode_utf8(cs) == bs ==> valid_utf8(bs) && unp_unicode(bs) == any_other(cs),
+{
+    assert forall|cs: Seq<char>| #[trigger] encode_utf8(cs) == bs implies valid_utf8(bs) && unp_unicode(bs) == any_other(cs) by {
+        encode_utf8_valid_utf8(cs);
+        assert forall|cs2: Seq<char>| encode_utf8(cs2) == bs implies cs2 == cs by { encode_utf8_decode_utf8(cs2); encode_utf8_decode_utf8(cs); }
+    }
+}
 /// everything the two branches of escaped_expectation_unicode can return, given what its callees return
 pub proof fn lemma_unicode_expectation(bs: Seq<u8>, escaped: Seq<char>, encoded: Seq<char>)
     requires
@@ -387,11 +404,15 @@ pub proof fn lemma_unicode_expectation(bs: Seq<u8>, escaped: Seq<char>, encoded:
     ensures
         none_other(if encoded == escaped { encoded } else { escaped + escaped_marker() }),
         no_lf(bs) ==> written_for(if encoded == escaped { encoded } else { escaped + escaped_marker() }, bs),
+        exp_form(if encoded == escaped { encoded } else { escaped + escaped_marker() }, bs, unp_unicode(bs)),
 {
     if valid_utf8(bs) {
         let cs = choose|cs: Seq<char>| #[trigger] encode_utf8(cs) == bs && escaped == enc_u(cs, any_other(cs));
         axiom_lossy_valid(cs);
         assert(encoded == cs);
+        // UTF-8 encoding is injective: cs is THE decoding of bs
+        assert forall|cs2: Seq<char>| encode_utf8(cs2) == bs implies cs2 == cs by { encode_utf8_decode_utf8(cs2); encode_utf8_decode_utf8(cs); }
+        assert(unp_unicode(bs) == any_other(cs));
         lemma_enc_u_none_other(cs, any_other(cs));
         lemma_marker_none_other(escaped);
         if !any_other(cs) {
@@ -417,4 +438,51 @@ pub proof fn lemma_unicode_expectation(bs: Seq<u8>, escaped: Seq<char>, encoded:
         lemma_marker_none_other(escaped);
         if no_lf(bs) { lemma_roundtrip_ascii(bs); }
     }
+}
+
+// ------------------------------------------------------------------ the expectation text as a function of the content (used by C09)
+/// escaped_expectation_ascii as a function of the content
+pub open spec fn exp_text_ascii(bs: Seq<u8>) -> Seq<char> {
+    if lossy(bs) == printable_ascii_of(bs) { lossy(bs) } else { printable_ascii_of(bs) + escaped_marker() }
+}
+/// escaped_printable_unicode as a function of the bytes
+pub open spec fn printable_unicode_of(bs: Seq<u8>) -> Seq<char> {
+    if valid_utf8(bs) { enc_u(decode_utf8(bs), any_other(decode_utf8(bs))) } else { printable_ascii_of(bs) }
+}
+/// escaped_expectation_unicode as a function of the content
+pub open spec fn exp_text_unicode(bs: Seq<u8>) -> Seq<char> {
+    if lossy(bs) == printable_unicode_of(bs) { lossy(bs) } else { printable_unicode_of(bs) + escaped_marker() }
+}
+/// what escaped_printable_unicode returns IS printable_unicode_of (the decoding is unique)
+pub proof fn lemma_printable_unicode_of(bs: Seq<u8>, r: Seq<char>)
+    requires valid_utf8(bs) ==> exists|cs: Seq<char>| #[trigger] encode_utf8(cs) == bs && r == enc_u(cs, any_other(cs)),
+        !valid_utf8(bs) ==> r == printable_ascii_of(bs),
+    ensures r == printable_unicode_of(bs),
+{
+    if valid_utf8(bs) {
+        let cs = choose|cs: Seq<char>| #[trigger] encode_utf8(cs) == bs && r == enc_u(cs, any_other(cs));
+        encode_utf8_decode_utf8(cs);
+    }
+}
+/// the ascii text has the form C11 proves
+pub proof fn lemma_exp_text_ascii(bs: Seq<u8>)
+    ensures exp_form(exp_text_ascii(bs), bs, exists_unprintable(bs)),
+{
+    lemma_enc_ascii_printable(bs);
+    if exists_unprintable(bs) {
+        axiom_lossy_unprintable(bs);
+        if no_lf(bs) { lemma_roundtrip_ascii(bs); }
+        assert(exp_text_ascii(bs) == enc_ascii(bs) + escaped_marker());
+    } else {
+        assert forall|k: int| 0 <= k < bs.len() implies bs[k] < 0x80 by { assert(printable_ascii(bs[k])); }
+        axiom_lossy_ascii(bs);
+        lemma_plain_is_line(bs);
+    }
+}
+/// ... and so has the unicode text
+pub proof fn lemma_exp_text_unicode(bs: Seq<u8>)
+    ensures exp_form(exp_text_unicode(bs), bs, unp_unicode(bs)),
+{
+    if valid_utf8(bs) { decode_utf8_encode_utf8(bs); assert(encode_utf8(decode_utf8(bs)) == bs); }
+    lemma_unicode_expectation(bs, printable_unicode_of(bs), lossy(bs));
 }
